@@ -35,12 +35,22 @@ type mySQLUndoDeleteExecutor struct {
 // newMySQLUndoDeleteExecutor init
 func newMySQLUndoDeleteExecutor(sqlUndoLog undo.SQLUndoLog) *mySQLUndoDeleteExecutor {
 	return &mySQLUndoDeleteExecutor{
-		sqlUndoLog:   sqlUndoLog,
-		baseExecutor: &BaseExecutor{sqlUndoLog: sqlUndoLog, undoImage: sqlUndoLog.AfterImage},
+		sqlUndoLog: sqlUndoLog,
+		// the rows to check before undoing a delete are the deleted ones: the before image
+		baseExecutor: &BaseExecutor{sqlUndoLog: sqlUndoLog, undoImage: sqlUndoLog.BeforeImage},
 	}
 }
 
 func (m *mySQLUndoDeleteExecutor) ExecuteOn(ctx context.Context, dbType types.DBType, conn *sql.Conn) error {
+	// the key may have been inserted again since the branch deleted it: with the same content there
+	// is nothing left to do, with other content the row is not ours to overwrite
+	ok, err := m.baseExecutor.dataValidationAndGoOn(ctx, conn)
+	if err != nil {
+		return err
+	}
+	if !ok {
+		return nil
+	}
 
 	undoSql, _ := m.buildUndoSQL(dbType)
 
